@@ -19,7 +19,7 @@ SPEC = dict(
          "near-threshold and skipped for the exact comparison). Elements of more than two letters are outside the key-splitting "
          "assumption. 'bridged cysteine is not titrated' is evaluated on the real code here and modelled with the census (C01).",
     technique="Lean 4 proof (induction over the insertion-ordered box dictionary and the visit sequence) + generated-table obligations + differential correspondence",
-    lean=["Propka.Props.C11"],
+    lean=["Propka.Props.C11", "Propka.Props.Pipeline"],
     rule="random atom clouds (2-80 atoms, any density, elements C N O H S F Cl and odd ones, grid coordinates incl. negative), two "
          "atoms straddling a cell boundary in each of the 26 directions at random cells incl. negative and exact box multiples, "
          "test PDB files; non-trivial = a distinct atom array with at least one bonded pair or a straddling pair",
